@@ -215,10 +215,10 @@ def units():
                                                     'tstImmediateT1', 'teqImmediateT1', 'cmnImmediateT1', 'cmpImmediateT2',
                                                     'tstRegisterShiftedRegisterA1', 'teqRegisterShiftedRegisterA1',
                                                     'cmpRegisterShiftedRegisterA1', 'cmnRegisterShiftedRegisterA1',
-                                                    'movRegisterArmA1', 'rrxA1')] +
+                                                    'movRegisterArmA1', 'rrxA1', 'lslImmediateT1', 'lsrImmediateT1', 'asrImmediateT1')] +
                    ['C01_dp_step', 'C01_dp_cmp_step', 'C01_add_imm_a1_closed', 'C01_add_imm_t1_closed', 'C01_and_imm_t1_closed'],
                    ['Proofs/StepProofs.v', 'Proofs/StepDP.v', 'Proofs/StepInstances.v', 'Proofs/StepInstancesArm.v',
-                    'Proofs/StepInstancesThumb.v', 'Proofs/StepDPReg.v', 'Proofs/StepInstancesArmReg.v', 'Proofs/StepInstancesCmp.v', 'Proofs/StepInstancesArmRsr.v', 'Proofs/StepInstancesThumbReg.v', 'Proofs/StepInstancesMov.v', 'Proofs/StepInstancesThumb2.v', 'Proofs/StepInstancesShift.v', 'Proofs/StepInstancesThumb2Reg.v', 'Proofs/StepInstancesCmpReg.v', 'Proofs/StepInstancesCmpT2.v', 'Proofs/StepInstancesCmpRsr.v', 'Proofs/StepInstancesMovReg.v', 'Proofs/StepFetch.v', 'Proofs/StepClosed.v',
+                    'Proofs/StepInstancesThumb.v', 'Proofs/StepDPReg.v', 'Proofs/StepInstancesArmReg.v', 'Proofs/StepInstancesCmp.v', 'Proofs/StepInstancesArmRsr.v', 'Proofs/StepInstancesThumbReg.v', 'Proofs/StepInstancesMov.v', 'Proofs/StepInstancesThumb2.v', 'Proofs/StepInstancesShift.v', 'Proofs/StepInstancesThumb2Reg.v', 'Proofs/StepInstancesCmpReg.v', 'Proofs/StepInstancesCmpT2.v', 'Proofs/StepInstancesCmpRsr.v', 'Proofs/StepInstancesMovReg.v', 'Proofs/StepInstancesShiftT16.v', 'Proofs/StepFetch.v', 'Proofs/StepClosed.v',
                     'Proofs/DPRange.v', 'Proofs/StepInstancesExample.v'],
                    ['arm_v6.ArmV6.emulate_cycle', 'arm_v6.ArmV6.execute_instruction', 'arm_v6.ArmV6.increment_pc_if_needed'], None,
                    IMPORTS, SPEC_IMPORTS))
